@@ -18,6 +18,7 @@ import (
 	"context"
 	"encoding/hex"
 	"encoding/json"
+	"errors"
 	"fmt"
 	"math/big"
 	"os"
@@ -103,6 +104,28 @@ func (r *sink) RequestFuture(m interface{}, timeout time.Duration, tip string) *
 	return f
 }
 
+// mempoolSink is a node's mempool as the tx signature verifier sees it: the answer to "is this tx in your pool"
+// (MemPoolExist). A hit makes the verifier skip the signature check of that tx (the pool has verified it). Which
+// txs a node's pool happens to hold is a node-local input: the nodes of one session get different pools.
+type mempoolSink struct {
+	sink
+	hit func(hash []byte) bool
+}
+
+func (r *mempoolSink) RequestFuture(m interface{}, timeout time.Duration, tip string) *actor.Future {
+	f := actor.NewFuturePrefix("verif", timeout)
+	if q, ok := m.(*message.MemPoolExist); ok && r.hit != nil {
+		rsp := &message.MemPoolExistRsp{}
+		if r.hit(q.Hash) {
+			rsp.Tx = &types.Tx{Hash: q.Hash}
+		}
+		f.PID().Tell(rsp)
+		return f
+	}
+	f.PID().Tell(component.ErrHubUnregistered)
+	return f
+}
+
 // ---------------------------------------------------------------- world, nodes
 
 type acct struct {
@@ -168,7 +191,22 @@ type node struct {
 	cs   *chain.ChainService
 	g    system.VerifC02Globals
 	dir  string
+	// node-local configuration that lives in package-level variables of /repo (set by chain.Init from the node's
+	// config file): parked here and installed whenever this node runs, like the governance state
+	cb []byte // chain.CoinbaseAccount
 }
+
+// nodeConf is the node-local part of a node's configuration: none of it may influence what a block executes to.
+type nodeConf struct {
+	coinbase   []byte // nil: not a block producer
+	verifiers  int    // cfg.Blockchain.VerifierCount (signature verifier goroutines)
+	workers    int    // cfg.Blockchain.NumWorkers
+	logOps     bool   // cfg.RPC.LogInternalOperations
+	poolHits   func(hash []byte) bool
+	useMempool bool
+}
+
+func cbAccount(b byte) []byte { return append([]byte{2}, bytes.Repeat([]byte{b}, 32)...) }
 
 func (w *world) initDir(dir string) {
 	os.RemoveAll(dir)
@@ -185,7 +223,7 @@ func (w *world) initDir(dir string) {
 
 // newNode boots a real ChainService on a fresh memory DB holding the genesis block; its in-memory governance
 // state (parameter table, voting-power rank) is loaded from the genesis state as a booting DPoS node does.
-func (w *world) newNode(name string) *node {
+func (w *world) newNode(name string, nc nodeConf) *node {
 	w.nnode++
 	n := &node{name: name, dir: filepath.Join(w.root, fmt.Sprintf("%s%d", name, w.nnode))}
 	w.initDir(n.dir)
@@ -195,14 +233,32 @@ func (w *world) newNode(name string) *node {
 	cfg.DataDir = n.dir
 	hf := *w.hf
 	cfg.Hardfork = &hf
+	// the node-local settings go in through the node's configuration, as on a real node (chain.Init)
+	chain.CoinbaseAccount = nil // a fresh process
+	if nc.coinbase != nil {
+		cfg.Consensus.EnableBp = true
+		cfg.Blockchain.CoinbaseAccount = types.EncodeAddress(nc.coinbase)
+	}
+	if nc.verifiers > 0 {
+		cfg.Blockchain.VerifierCount = nc.verifiers
+	}
+	if nc.workers > 0 {
+		cfg.Blockchain.NumWorkers = nc.workers
+	}
+	cfg.RPC.LogInternalOperations = nc.logOps
 	n.cs = chain.NewChainService(cfg)
+	n.cb = chain.CoinbaseAccount
+	if !bytes.Equal(n.cb, nc.coinbase) {
+		panic("chain.Init did not install the configured coinbase account")
+	}
 	n.cs.SetChainConsensus(&stubCons{cs: n.cs})
 	hub := component.NewComponentHub()
-	for _, nm := range []string{message.MemPoolSvc, message.RPCSvc, message.P2PSvc, message.SyncerSvc} {
+	hub.Register(&mempoolSink{sink: sink{name: message.MemPoolSvc}, hit: nc.poolHits})
+	for _, nm := range []string{message.RPCSvc, message.P2PSvc, message.SyncerSvc} {
 		hub.Register(&sink{name: nm})
 	}
 	n.cs.SetHub(hub)
-	chain.VerifC02SetSkipMempool(n.cs, true)
+	chain.VerifC02SetSkipMempool(n.cs, !nc.useMempool)
 	if err := dpos.VerifC02InitVPR(n.cs.SDB().GetStateDB()); err != nil {
 		panic(err)
 	}
@@ -215,9 +271,10 @@ func (n *node) close() {
 	os.RemoveAll(n.dir)
 }
 
-// on runs f with node n's in-memory governance state installed.
+// on runs f with node n's in-memory governance state and node-local configuration installed.
 func (n *node) on(f func()) {
 	system.VerifC02InstallGlobals(n.g)
+	chain.CoinbaseAccount = n.cb
 	defer func() { n.g = system.VerifC02TakeGlobals() }()
 	f()
 }
@@ -283,8 +340,11 @@ type produced struct {
 // parent root, gas price, receipts fork flag, a BlockGenerator whose tx source is `cands`, GenerateBlock.
 // stops[i] scripts the block factory's own checks for candidate i ("" = none, "tmo" = block timeout,
 // "vmtmo" = contract timeout): they are TxOps composed in front of the executor exactly like checkBpTimeout;
-// "dl" / "cancel" make the block-generation context expire (DeadlineExceeded) / be cancelled (shutdown) WHILE
-// candidate i executes: GatherTXs' own checkBGTimeout then sees it (outcome token "ok!" / "err!").
+// "dl" / "cancel" make the block-generation context expire (DeadlineExceeded) / be cancelled (shutdown) right
+// after candidate i executed, "dlpre" / "cancelpre" after checkBGTimeout let it pass and BEFORE it executes (the
+// executor then runs with execCtx.Err() != nil): GatherTXs' own checkBGTimeout sees it at the next candidate
+// (outcome tokens "ok!" / "err!" and "ok^" / "err^"). "xtmo": the executor returned a *contract.VmTimeoutError
+// that came out of the VM after the call had started.
 func (n *node) produce(w *world, parent *types.Block, no types.BlockNo, cands []types.Transaction, stops []string) *produced {
 	w.ts += 1_000_000_000
 	bi := types.NewBlockHeaderInfoFromPrevBlock(parent, w.ts, w.hf)
@@ -315,16 +375,24 @@ func (n *node) produce(w *world, parent *types.Block, no types.BlockNo, cands []
 			case "vmtmo":
 				p.outcomes[i] = "vmtmo"
 				return &contract.VmTimeoutError{}
+			case "dlpre": // checkBGTimeout has let the candidate pass; the deadline passes before it executes
+				bgCtx.fire(context.DeadlineExceeded)
+			case "cancelpre":
+				bgCtx.fire(context.Canceled)
 			}
 			return nil
 		}),
 		cchain.TxOpFn(func(bState *state.BlockState, tx types.Transaction) error {
 			i := idx[string(tx.GetHash())]
 			err := exec(bState, tx)
-			if err != nil {
-				p.outcomes[i] = "err"
-			} else {
+			var vmt *contract.VmTimeoutError
+			switch {
+			case err == nil:
 				p.outcomes[i] = "ok"
+			case errors.As(err, &vmt): // a timeout raised inside the VM, after the call has started (and written)
+				p.outcomes[i] = "xtmo"
+			default:
+				p.outcomes[i] = "err"
 			}
 			switch stops[i] {
 			case "dl":
@@ -333,6 +401,8 @@ func (n *node) produce(w *world, parent *types.Block, no types.BlockNo, cands []
 			case "cancel":
 				bgCtx.fire(context.Canceled)
 				p.outcomes[i] += "!"
+			case "dlpre", "cancelpre":
+				p.outcomes[i] += "^"
 			}
 			return err
 		}),
@@ -736,6 +806,18 @@ func script(rng *vh.Rng, ci *contractInfo, accts []*acct, others []*contractInfo
 		// system error: the tx fails AFTER the VM has charged a fee; the producer must skip it and keep nothing of it
 		sc["err"] = "system"
 		sc["fee"] = fmt.Sprint(1000 + rng.Intn(5)*123456789)
+	case 3:
+		// the contract times out inside the VM AFTER its transfers and storage writes were made: the producer stops
+		// collecting, keeps the block built so far, and nothing of the timed-out call may stay in its state
+		sc["err"] = "timeout"
+		sc["fee"] = fmt.Sprint(1000 + rng.Intn(5)*123456789)
+		if len(sets) == 0 {
+			sc["sets"] = []map[string]string{{"k": "k1", "v": "99"}}
+		}
+		if _, ok := sc["xfers"]; !ok {
+			fresh := append([]byte{3}, rng.Bytes(32)...)
+			sc["xfers"] = []map[string]string{{"to": hex.EncodeToString(fresh), "amt": "0"}}
+		}
 	}
 	b, _ := json.Marshal(sc)
 	return string(b)
@@ -825,6 +907,8 @@ func (s *session) candidates(bi *types.BlockHeaderInfo) ([]cand, []string) {
 			body.Payload = []byte(script(rng, nil, w.accts, s.contracts))
 			if strings.Contains(string(body.Payload), `"err":"system"`) {
 				kind = "deploy-syserr"
+			} else if strings.Contains(string(body.Payload), `"err":"timeout"`) {
+				kind = "deploy-vmtimeout"
 			}
 		case k < 48:
 			if len(s.contracts) == 0 {
@@ -845,6 +929,8 @@ func (s *session) candidates(bi *types.BlockHeaderInfo) ([]cand, []string) {
 				kind = "call-negfee"
 			} else if strings.Contains(string(body.Payload), `"err":"system"`) {
 				kind = "call-syserr"
+			} else if strings.Contains(string(body.Payload), `"err":"timeout"`) {
+				kind = "call-vmtimeout"
 			} else if strings.Contains(string(body.Payload), `"err":"vm"`) {
 				kind = "call-vmerr"
 			}
@@ -927,7 +1013,7 @@ func (s *session) candidates(bi *types.BlockHeaderInfo) ([]cand, []string) {
 		// the position sweeps over the candidates from block to block, so that every position (first, last, on a
 		// failing candidate, on a succeeding one) is hit
 		s.stopPos++
-		stops[s.stopPos%len(out)] = []string{"dl", "dl", "dl", "tmo", "vmtmo", "cancel"}[rng.Intn(6)]
+		stops[s.stopPos%len(out)] = []string{"dl", "dl", "dlpre", "dlpre", "tmo", "vmtmo", "cancel", "cancelpre"}[rng.Intn(8)]
 	}
 	return out, stops
 }
@@ -1074,21 +1160,56 @@ func (s *session) step() bool {
 		s.fail("the producer's header receipts root is not the root of its receipts", nil)
 	}
 
-	// --- the validator path, k times per GOMAXPROCS setting, on a freshly booted node each time
+	// --- the validator path, k times per GOMAXPROCS setting, on a freshly booted node each time. Every run is
+	// another node: its own coinbase account (none / the second node's / a random one / the producer's), the second
+	// node's mempool and worker counts. None of that may show in what the block executes to.
 	parentRoot := s.parent.GetHeader().GetBlocksRootHash()
 	old := runtime.GOMAXPROCS(0)
 	ok := true
 	verdict := "accept"
+	hdrCb := p.blk.GetHeader().GetCoinbaseAccount()
+	balAt := func(sdb *statedb.StateDB, addr []byte) *big.Int {
+		if len(addr) == 0 || sdb == nil {
+			return new(big.Int)
+		}
+		st, err := sdb.GetAccountState(types.ToAccountID(addr))
+		if err != nil || st == nil {
+			return new(big.Int)
+		}
+		return new(big.Int).SetBytes(st.GetBalance())
+	}
+	parentSdb := s.V.cs.SDB().OpenNewStateDB(parentRoot)
+	rewardOp := false
+	nrun := 0
 	for _, gmp := range []int{1, 4, 16} {
 		runtime.GOMAXPROCS(gmp)
 		for r := 0; r < s.reps && ok; r++ {
+			var local []byte
+			switch nrun % 4 {
+			case 0:
+				local = append([]byte{3}, s.rng.Bytes(32)...) // some other producer's account
+			case 1:
+				local = nil // not a block producer
+			case 2:
+				local = s.V.cb
+			case 3:
+				local = s.P.cb
+			}
+			nrun++
 			var got execResult
+			var vbs *state.BlockState
 			out, panicked := vh.Guard(func() string {
 				s.V.bootFresh(parentRoot, len(w.bps))
-				root, rc, err := chain.VerifC02VerifyExec(s.V.cs, p.blk)
-				got = execResult{root: hx(root), rbytes: receiptsBytes(rc)}
-				if rc != nil {
-					got.rroot = hx(rc.MerkleRoot())
+				chain.CoinbaseAccount = local
+				var err error
+				vbs, err = chain.VerifC02VerifyExecState(s.V.cs, p.blk)
+				if vbs != nil {
+					got = execResult{root: hx(vbs.GetRoot()), rbytes: receiptsBytes(vbs.Receipts())}
+					if vbs.Receipts() != nil {
+						got.rroot = hx(vbs.Receipts().MerkleRoot())
+					}
+				} else {
+					got = execResult{root: hx(nil), rbytes: receiptsBytes(nil)}
 				}
 				if err != nil {
 					got.err = err.Error()
@@ -1099,6 +1220,25 @@ func (s *session) step() bool {
 			if panicked {
 				got.err = out
 			}
+			if !bytes.Equal(local, hdrCb) {
+				run.Count("fresh validator configured with another coinbase account than the block's")
+			}
+			if !rewardOp && !panicked && got.err == "" && vbs != nil && !bytes.Equal(local, hdrCb) && len(local) > 0 {
+				// who was paid: the header's account, not the validating node's own (model: validateBlock)
+				rewardOp = true
+				name := func(a []byte) string {
+					if len(a) == 0 {
+						return "-"
+					}
+					return hx(a)
+				}
+				d := func(a []byte) string {
+					return new(big.Int).Sub(balAt(vbs.StateDB, a), balAt(parentSdb, a)).String()
+				}
+				fee := new(big.Int).Set(&p.bs.BpReward)
+				run.Op(fmt.Sprintf("reward %s %s %s", name(hdrCb), name(local), fee.String()),
+					fmt.Sprintf("hdr+%s local+%s", d(hdrCb), d(local)), fee.Sign() > 0 && len(hdrCb) > 0)
+			}
 			if got != ref {
 				verdict = "reject"
 				what := "a fresh node re-executing a produced block from the parent state computes different roots/receipts than the producer"
@@ -1106,7 +1246,7 @@ func (s *session) step() bool {
 					what = "the validation path of a fresh node rejects a block the production path built: " + got.err
 				}
 				s.fail(what, map[string]interface{}{"gomaxprocs": gmp, "repetition": r, "producer": ref.String(), "validator": got.String(),
-					"candidates": kinds, "outcomes": p.outcomes})
+					"candidates": kinds, "outcomes": p.outcomes, "validator_local_coinbase": hx(local), "header_coinbase": hx(hdrCb)})
 				ok = false
 			}
 		}
@@ -1191,8 +1331,14 @@ func (s *session) step() bool {
 func runSession(run *vh.Run, label string, hf *config.HardforkConfig, warp bool, nblocks int) {
 	w := newWorld(run, run.Rng.Fork(), hf, label)
 	s := &session{w: w, run: run, rng: w.rng, warp: warp, reps: run.Pick(3, 25)}
-	s.P = w.newNode("P")
-	s.V = w.newNode("V")
+	// two nodes, configured differently in everything that is node-local: coinbase account (the second node is a
+	// producer too, with its own account), number of signature verifiers and workers, logging of internal
+	// operations, and what their mempools hold (the second node's pool knows about half of the transactions, so
+	// its signature verifier skips those; the first never asks its pool)
+	salt := byte(s.rng.Intn(256))
+	s.P = w.newNode("P", nodeConf{coinbase: cbAccount(0xCB), verifiers: 2, workers: 2})
+	s.V = w.newNode("V", nodeConf{coinbase: cbAccount(0xCC), verifiers: 1 + s.rng.Intn(5), workers: 1 + s.rng.Intn(4), logOps: true,
+		useMempool: true, poolHits: func(h []byte) bool { return len(h) > 0 && (h[0]^salt)&1 == 1 }})
 	clean := false
 	defer func() {
 		// after a failure the nodes are abandoned, not stopped: a validator that rejected a block may still have
@@ -1220,9 +1366,8 @@ func main() {
 	zerolog.SetGlobalLevel(zerolog.Disabled)
 	run := vh.Start("c02", "nontrivial = a tally of >= 2 candidates / >= 2 pending power changes / a block with >= 1 tx; distinct by (operation, answer) or by block roots")
 	dpos.VerifC02DecorateVotingReward()
-	// a block producer with a coinbase account: the fees of a block (BlockState.BpReward) are credited to it by
-	// SendBlockReward on both paths (the validator takes the account from the header)
-	chain.VerifC02SetCoinbase(append([]byte{2}, bytes.Repeat([]byte{0xCB}, 32)...))
+	// every node has its own coinbase account (nodeConf): the fees of a block (BlockState.BpReward) are credited by
+	// SendBlockReward to the producer's on the producer path and to the HEADER's on the validator path
 
 	far := types.BlockNo(1) << 40
 	forks := []struct {
